@@ -15,12 +15,27 @@ from gen import Contract, UnitFile  # noqa: E402
 import common  # noqa: E402
 
 XF = "src/extract_function.rs"
+AST = "src/parser/ast.rs"
 RLIMIT = 60
-MIN_FUNCTIONS = 0
+MIN_FUNCTIONS = 8
 
-ASSUMPTIONS = {}
-LEMMAS = {}
-UNVERIFIED = {"C20": []}
+ASSUMPTIONS = {
+    "SymbolName": "opaque stand-in for ast::SymbolName (equality is equality of the name)", "clone": "derive(Clone) on SymbolName returns an equal name",
+    "SyntaxId": "opaque", "Type": "opaque stand-in for garden_type::Type", "Expression": "opaque stand-in for ast::Expression (and for Rc<Expression>)",
+    "TypeHint": "opaque", "Position": "opaque", "NsRef": "opaque stand-in for Rc<RefCell<NamespaceInfo>>", "TyMap": "opaque stand-in for FxHashMap<SyntaxId, Type>",
+    "NameSet": "FxHashSet<SymbolName> behind a ghost set view `nsv`", "default": "FxHashSet::default() is the empty set",
+    "contains": "FxHashSet::contains", "insert": "FxHashSet::insert adds the name",
+    "vns_insert_at": "`local_bindings.last_mut().expect(..)` followed by `insert`: adds the name to the last scope",
+    "vlast_index": "`last_mut().expect(\"Should never be empty\")`: panics on an empty scope stack (an obligation); the index of the last scope",
+    "vns_has_value": "NamespaceInfo.values.contains_key: whether the file defines a toplevel value of that name",
+    "vtm_get_cloned": "FxHashMap::get(..).cloned()", "vvec1": "vec![x] is a vector of one element",
+    "visit_expr": "Visitor::visit_expr (the default method: dispatches on the expression to the visit_* methods, overridden or default) leaves every scope below the innermost one as it is, may add names to the innermost one (a `let`), keeps the stack depth, and only adds to the free variables; this is the induction hypothesis of the traversal and is not machine-checked",
+}
+LEMMAS = {"lemma_names_upto_step": {"C20"}, "lemma_pnames_upto_step": {"C20"}, "lemma_visible_push": {"C20"}, "lemma_visible_same": {"C20"}}
+UNVERIFIED = {"C20": [
+    "extract-function: that the Visitor trait's default traversal reaches every variable reference through these methods (the induction over the syntax tree) is assumed, see visit_expr; which constructs bind names is compared with the list of Expression_ variants (obligation binding_constructs_are_overridden)",
+    "extract-function: the splice of the new function and the call into the text (extract_single_expr / extract_exprs / extracted_fun_src) and find_block_selection are covered by the bounded stand-in only",
+]}
 
 # assignment-free programs without return / break / continue; every effect is a println
 EXTRACT_FN_PROGRAMS = [
@@ -56,9 +71,355 @@ WITNESSES = [
 ]
 
 
+
+GLUE = """
+#[verifier::external_body] pub struct SymbolName { _o: u8 }
+impl Clone for SymbolName {
+    #[verifier::external_body]
+    fn clone(&self) -> (r: Self) ensures r == *self { unimplemented!() }
+}
+#[verifier::external_body] pub struct SyntaxId { _o: u8 }
+#[verifier::external_body] pub struct Type { _o: u8 }
+#[verifier::external_body] pub struct Expression { _o: u8 }
+#[verifier::external_body] pub struct TypeHint { _o: u8 }
+#[verifier::external_body] pub struct Position { _o: u8 }
+#[verifier::external_body] pub struct NsRef { _o: u8 }
+#[verifier::external_body] pub struct TyMap { _o: u8 }
+impl Clone for TyMap {
+    #[verifier::external_body]
+    fn clone(&self) -> (r: Self) ensures r == *self { unimplemented!() }
+}
+#[verifier::external_body] pub struct NameSet { _o: u8 }
+/// the names in a FxHashSet<SymbolName>
+pub uninterp spec fn nsv(s: NameSet) -> ISet<SymbolName>;
+/// whether the file's namespace defines a toplevel value of that name
+pub uninterp spec fn ns_defines(ns: NsRef, n: SymbolName) -> bool;
+pub uninterp spec fn ty_of(m: TyMap, id: SyntaxId) -> Option<Type>;
+impl NameSet {
+    #[verifier::external_body]
+    pub fn default() -> (r: NameSet) ensures nsv(r) == ISet::<SymbolName>::empty() { unimplemented!() }
+    #[verifier::external_body]
+    pub fn contains(&self, n: &SymbolName) -> (r: bool) ensures r == nsv(*self).contains(*n) { unimplemented!() }
+    #[verifier::external_body]
+    pub fn insert(&mut self, n: SymbolName) -> (r: bool) ensures nsv(*final(self)) == nsv(*old(self)).insert(n) { unimplemented!() }
+}
+#[verifier::external_body]
+pub fn vlast_index(v: &Vec<NameSet>) -> (r: usize)
+    requires v@.len() >= 1,
+    ensures r == v@.len() - 1,
+{ unimplemented!() }
+#[verifier::external_body]
+pub fn vns_insert_at(v: &mut Vec<NameSet>, i: usize, n: SymbolName)
+    requires i < old(v)@.len(),
+    ensures final(v)@.len() == old(v)@.len(),
+        forall|j: int| 0 <= j < old(v)@.len() && j != i ==> final(v)@[j] == old(v)@[j],
+        nsv(final(v)@[i as int]) == nsv(old(v)@[i as int]).insert(n),
+{ unimplemented!() }
+#[verifier::external_body]
+pub fn vns_has_value(ns: &NsRef, n: &SymbolName) -> (r: bool) ensures r == ns_defines(*ns, *n) { unimplemented!() }
+#[verifier::external_body]
+pub fn vtm_get_cloned(m: &TyMap, id: &SyntaxId) -> (r: Option<Type>) ensures r == ty_of(*m, *id) { unimplemented!() }
+#[verifier::external_body]
+pub fn vvec1(x: NameSet) -> (r: Vec<NameSet>) ensures r@ == seq![x] { unimplemented!() }
+/// the parts of the syntax tree these functions read
+pub struct Symbol { pub name: SymbolName, pub id: SyntaxId }
+pub struct SymbolWithHint { pub symbol: Symbol }
+pub struct ParenthesizedParameters { pub params: Vec<SymbolWithHint> }
+pub struct FunInfo { pub params: ParenthesizedParameters, pub body: Block }
+"""
+
+SPECS = """
+/// the names some scope of the stack binds
+pub open spec fn visible(lb: Seq<NameSet>) -> ISet<SymbolName> {
+    ISet::new(|n: SymbolName| exists|i: int| 0 <= i < lb.len() && #[trigger] nsv(lb[i]).contains(n))
+}
+pub open spec fn names_upto(s: Seq<Symbol>, k: int) -> ISet<SymbolName> {
+    ISet::new(|n: SymbolName| exists|i: int| 0 <= i < k && i < s.len() && (#[trigger] s[i]).name == n)
+}
+pub open spec fn pnames_upto(s: Seq<SymbolWithHint>, k: int) -> ISet<SymbolName> {
+    ISet::new(|n: SymbolName| exists|i: int| 0 <= i < k && i < s.len() && (#[trigger] s[i]).symbol.name == n)
+}
+/// the names a let destination / pattern payload / for variable binds
+pub open spec fn dest_names(d: LetDestination) -> ISet<SymbolName> {
+    match d {
+        LetDestination::Symbol(s) => ISet::<SymbolName>::empty().insert(s.name),
+        LetDestination::Destructure(v) => names_upto(v@, v@.len() as int),
+    }
+}
+pub open spec fn opt_dest_names(o: Option<LetDestination>) -> ISet<SymbolName> {
+    match o { Some(d) => dest_names(d), None => ISet::<SymbolName>::empty() }
+}
+/// the same scopes, each with the same names
+pub open spec fn same_scopes(a: Seq<NameSet>, b: Seq<NameSet>) -> bool {
+    a.len() == b.len() && forall|i: int| #![trigger a[i]] #![trigger b[i]] 0 <= i < a.len() ==> nsv(a[i]) == nsv(b[i])
+}
+/// b is a with (possibly) more names in the innermost scope
+pub open spec fn grown_at_top(a: Seq<NameSet>, b: Seq<NameSet>) -> bool {
+    a.len() == b.len() && a.len() >= 1
+    && (forall|i: int| #![trigger a[i]] #![trigger b[i]] 0 <= i < a.len() - 1 ==> nsv(a[i]) == nsv(b[i]))
+    && nsv(a[a.len() - 1]).subset_of(nsv(b[b.len() - 1]))
+}
+pub proof fn lemma_names_upto_step(s: Seq<Symbol>, k: int)
+    requires 0 <= k < s.len(),
+    ensures names_upto(s, k + 1) == names_upto(s, k).insert(s[k].name),
+{
+    assert forall|n: SymbolName| names_upto(s, k + 1).contains(n) == names_upto(s, k).insert(s[k].name).contains(n) by {
+        if names_upto(s, k + 1).contains(n) {
+            let i = choose|i: int| 0 <= i < k + 1 && i < s.len() && (#[trigger] s[i]).name == n;
+            if i < k { assert(names_upto(s, k).contains(n)); }
+        }
+        if names_upto(s, k).insert(s[k].name).contains(n) {
+            if n == s[k].name { assert(s[k].name == n); } else {
+                let i = choose|i: int| 0 <= i < k && i < s.len() && (#[trigger] s[i]).name == n;
+                assert(s[i].name == n);
+            }
+        }
+    }
+    assert(names_upto(s, k + 1) =~= names_upto(s, k).insert(s[k].name));
+}
+pub proof fn lemma_pnames_upto_step(s: Seq<SymbolWithHint>, k: int)
+    requires 0 <= k < s.len(),
+    ensures pnames_upto(s, k + 1) == pnames_upto(s, k).insert(s[k].symbol.name),
+{
+    assert forall|n: SymbolName| pnames_upto(s, k + 1).contains(n) == pnames_upto(s, k).insert(s[k].symbol.name).contains(n) by {
+        if pnames_upto(s, k + 1).contains(n) {
+            let i = choose|i: int| 0 <= i < k + 1 && i < s.len() && (#[trigger] s[i]).symbol.name == n;
+            if i < k { assert(pnames_upto(s, k).contains(n)); }
+        }
+        if pnames_upto(s, k).insert(s[k].symbol.name).contains(n) {
+            if n == s[k].symbol.name { assert(s[k].symbol.name == n); } else {
+                let i = choose|i: int| 0 <= i < k && i < s.len() && (#[trigger] s[i]).symbol.name == n;
+                assert(s[i].symbol.name == n);
+            }
+        }
+    }
+    assert(pnames_upto(s, k + 1) =~= pnames_upto(s, k).insert(s[k].symbol.name));
+}
+/// pushing a scope adds exactly its names to the visible ones
+pub proof fn lemma_visible_push(lb: Seq<NameSet>, top: NameSet)
+    ensures visible(lb.push(top)) == visible(lb).union(nsv(top)),
+{
+    let l2 = lb.push(top);
+    assert forall|n: SymbolName| visible(l2).contains(n) == visible(lb).union(nsv(top)).contains(n) by {
+        if visible(l2).contains(n) {
+            let i = choose|i: int| 0 <= i < l2.len() && #[trigger] nsv(l2[i]).contains(n);
+            if i < lb.len() { assert(nsv(lb[i]).contains(n)); }
+        }
+        if visible(lb).contains(n) {
+            let i = choose|i: int| 0 <= i < lb.len() && #[trigger] nsv(lb[i]).contains(n);
+            assert(nsv(l2[i]).contains(n));
+        }
+        if nsv(top).contains(n) { assert(nsv(l2[lb.len() as int]).contains(n)); }
+    }
+    assert(visible(l2) =~= visible(lb).union(nsv(top)));
+}
+/// stacks with the same scopes show the same names
+pub proof fn lemma_visible_same(a: Seq<NameSet>, b: Seq<NameSet>)
+    requires same_scopes(a, b),
+    ensures visible(a) == visible(b),
+{
+    assert forall|n: SymbolName| visible(a).contains(n) == visible(b).contains(n) by {
+        if visible(a).contains(n) { let i = choose|i: int| 0 <= i < a.len() && #[trigger] nsv(a[i]).contains(n); assert(nsv(b[i]).contains(n)); }
+        if visible(b).contains(n) { let i = choose|i: int| 0 <= i < b.len() && #[trigger] nsv(b[i]).contains(n); assert(nsv(a[i]).contains(n)); }
+    }
+    assert(visible(a) =~= visible(b));
+}
+"""
+
+# Visitor::visit_expr as the overrides see it (assumed, see ASSUMPTIONS)
+STUBS = """
+impl FreeVarsVisitor {
+    #[verifier::external_body]
+    pub fn visit_expr(&mut self, expr: &Expression)
+        requires old(self).local_bindings@.len() >= 1,
+        ensures grown_at_top(old(self).local_bindings@, final(self).local_bindings@),
+            nsv(old(self).free_vars_seen).subset_of(nsv(final(self).free_vars_seen)),
+            final(self).namespace == old(self).namespace, final(self).id_to_ty == old(self).id_to_ty,
+    { unimplemented!() }
+}
+"""
+
 def build(tier):
     u = UnitFile("freevars")
     u.raw(common.HEADER)
+    u.raw(GLUE, kind="prelude")
+    T = [rw.simple("T1", r"Rc<RefCell<NamespaceInfo>>", "NsRef"), rw.simple("T1", r"FxHashSet<SymbolName>", "NameSet"),
+         rw.simple("T1", r"FxHashMap<SyntaxId, Type>", "TyMap"), rw.simple("T1", r"Rc<Expression>", "Expression")]
+    u.add_type(AST, "LetDestination")
+    u.add_type(AST, "Pattern")
+    u.add_type(AST, "Block", rules=T)
+    u.add_type(XF, "FreeVarsVisitor", rules=T)
+    u.raw(SPECS, kind="spec")
+    u.raw(STUBS, kind="prelude")
+    props = {"C20"}
+    rw.ITER_BY_VALUE_OK.update({"symbols", "exprs"})
+    COMMON = [rw.simple("R1", r"\bast::", ""), rw.simple("R2", r"FxHashSet::default\(\)", "NameSet::default()"),
+              rw.simple("R1", r"\b_: Option<&TypeHint>", "_hint: Option<&TypeHint>")]
+    VIS = "Visitor for FreeVarsVisitor"
+    W = "FreeVarsVisitor"
+    OLD, CUR, FIN = "old(self).local_bindings@", "self.local_bindings@", "final(self).local_bindings@"
+    wf = [("some_scope", "%s.len() >= 1" % OLD)]
+    frame = [("namespace_and_types_untouched", "final(self).namespace == old(self).namespace, final(self).id_to_ty == old(self).id_to_ty"),
+             ("seen_names_only_added", "nsv(old(self).free_vars_seen).subset_of(nsv(final(self).free_vars_seen))")]
+
+    # --- a variable reference -------------------------------------------------------------------------------
+    NAME = "symbol.name"
+    is_free = "(!ns_defines(old(self).namespace, %s) && !nsv(old(self).free_vars_seen).contains(%s) && !visible(%s).contains(%s))" % (NAME, NAME, OLD, NAME)
+    u.add_fn(XF, "visit_expr_variable", impl=VIS, wrap_impl=W,
+             rules=COMMON + [rw.simple("R2", r"self\.namespace\.borrow\(\)\.values\.contains_key\(&symbol\.name\)", "vns_has_value(&self.namespace, &symbol.name)"),
+                             rw.simple("R2", r"self\.id_to_ty\.get\(&symbol\.id\)\.cloned\(\)", "vtm_get_cloned(&self.id_to_ty, &symbol.id)"), "R6"],
+             contract=Contract(
+                 requires=wf,
+                 ensures=[("a_name_that_no_scope_binds_and_the_file_does_not_define_becomes_a_parameter_once",
+                           "final(self).free_vars@ == (if %s { old(self).free_vars@.push((%s, ty_of(old(self).id_to_ty, symbol.id))) } else { old(self).free_vars@ })" % (is_free, NAME)),
+                          ("seen_follows", "nsv(final(self).free_vars_seen) == (if %s { nsv(old(self).free_vars_seen).insert(%s) } else { nsv(old(self).free_vars_seen) })" % (is_free, NAME)),
+                          ("scopes_untouched", "%s == %s" % (FIN, OLD))] + frame[:1],
+                 optional_loops=dict(invariant=[("no_inner_scope_binds_it", "{I} <= %s.len(), forall|j: int| {I} <= j < %s.len() ==> !nsv(#[trigger] %s[j]).contains(%s)" % (CUR, CUR, CUR, NAME)),
+                                                ("nothing_changed_yet", "*self == *old(self)")],
+                                     decreases="{I}"),
+                 props=props))
+
+    # --- binding the names of a destination in the innermost scope -----------------------------------------------
+    LAST = "%s[%s.len() - 1]"
+    u.add_fn(XF, "insert_dest_bindings", impl=W,
+             rules=COMMON + [rw.simple("R13l", r"let block_bindings = self\s*\.local_bindings\s*\.last_mut\(\)\s*\.expect\(\"[^\"]*\"\);", "let __n: usize = vlast_index(&self.local_bindings);"),
+                             rw.simple("R13l", r"block_bindings\.insert\(([^;]*)\);", r"vns_insert_at(&mut self.local_bindings, __n, \1);"), "R4"],
+             contract=Contract(
+                 requires=wf,
+                 ensures=[("the_innermost_scope_gains_exactly_the_destination_names", "nsv(%s) == nsv(%s).union(dest_names(*dest))" % (LAST % (FIN, FIN), LAST % (OLD, OLD))),
+                          ("other_scopes_untouched", "%s.len() == %s.len(), forall|i: int| 0 <= i < %s.len() - 1 ==> %s[i] == %s[i]" % (FIN, OLD, OLD, FIN, OLD)),
+                          ("rest_untouched", "final(self).namespace == old(self).namespace, final(self).id_to_ty == old(self).id_to_ty, final(self).free_vars == old(self).free_vars, final(self).free_vars_seen == old(self).free_vars_seen")],
+                 loops={1: dict(invariant=[("names_so_far", "{I} <= symbols@.len(), %s.len() == %s.len(), __n == %s.len() - 1, nsv(%s[__n as int]) == nsv(%s[__n as int]).union(names_upto(symbols@, {I} as int))" % (CUR, OLD, OLD, CUR, OLD)),
+                                           ("others_untouched", "forall|i: int| 0 <= i < %s.len() - 1 ==> %s[i] == %s[i]" % (OLD, CUR, OLD)),
+                                           ("rest_untouched", "self.namespace == old(self).namespace, self.id_to_ty == old(self).id_to_ty, self.free_vars == old(self).free_vars, self.free_vars_seen == old(self).free_vars_seen")],
+                                body_prelude="proof { lemma_names_upto_step(symbols@, {I} as int); }",
+                                pre="proof { assert(names_upto(symbols@, 0) =~= ISet::<SymbolName>::empty()); assert(nsv(%s[__n as int]).union(names_upto(symbols@, 0)) =~= nsv(%s[__n as int])); }" % (OLD, OLD),
+                                decreases="symbols@.len() - {I}")},
+                 props=props))
+    # --- constructs that open a scope ---------------------------------------------------------------------------------
+    inv_frame = ("rest", "self.namespace == old(self).namespace, self.id_to_ty == old(self).id_to_ty, nsv(old(self).free_vars_seen).subset_of(nsv(self.free_vars_seen))")
+    lower = lambda base, depth: "forall|i: int| 0 <= i < %s.len() ==> nsv(#[trigger] %s[i]) == nsv(%s[i])" % (base, CUR, base)
+    u.add_fn(XF, "visit_block", impl=VIS, wrap_impl=W, rules=COMMON + ["R4"],
+             contract=Contract(
+                 requires=wf,
+                 ensures=[("names_bound_in_the_block_go_out_of_scope_at_its_end", "same_scopes(%s, %s)" % (OLD, FIN))] + frame,
+                 loops={1: dict(invariant=[("one_scope_deeper", "%s.len() == %s.len() + 1" % (CUR, OLD)), ("enclosing_scopes_untouched", lower(OLD, 0)), inv_frame,
+                                           ("the_block_starts_with_the_enclosing_names_only", "{I} == 0 ==> visible(%s) == visible(%s)" % (CUR, OLD)),
+                                           ("index", "{I} <= block.exprs@.len()")],
+                                decreases="block.exprs@.len() - {I}")},
+                 hints=[dict(anchor="self.local_bindings.push(", where="after_stmt", optional=True,
+                             text="proof { lemma_visible_push(%s, %s[%s.len() - 1]); assert(%s =~= %s.push(%s[%s.len() - 1])); assert(visible(%s) =~= visible(%s)); }" % (OLD, CUR, CUR, CUR, OLD, CUR, CUR, CUR, OLD))],
+                 props=props))
+    def split_top(extra=""):
+        """proof text: CUR is base.push(top); the names visible in it are those of base plus those of top"""
+        return ("let top = %s[%s.len() - 1]; let base = %s.drop_last(); assert(%s =~= base.push(top)); lemma_visible_push(base, top); %s" % (CUR, CUR, CUR, CUR, extra))
+    post_same = [("the_scope_is_closed_again", "same_scopes(%s, %s)" % (OLD, FIN))] + frame
+    post_grown = [("enclosing_scopes_untouched_and_the_innermost_one_only_grows", "grown_at_top(%s, %s)" % (OLD, FIN))] + frame
+
+    u.add_fn(XF, "visit_expr_try", impl=VIS, wrap_impl=W, rules=COMMON,
+             contract=Contract(
+                 requires=wf, ensures=post_same,
+                 hints=[dict(anchor="self.visit_block(try_body)", where="before", name="the_try_body_sees_the_enclosing_names_only",
+                             text="proof { assert(%s == %s); }" % (CUR, OLD)),
+                        dict(anchor="self.visit_block(catch_body)", where="before", name="the_catch_body_sees_the_enclosing_names_and_the_catch_variable",
+                             text="proof { %s assert(same_scopes(%s, base)); lemma_visible_same(%s, base);\n    assert(visible(%s) =~= visible(%s).insert(catch_sym.name)); }" % (split_top(), OLD, OLD, CUR, OLD))],
+                 props=props))
+
+    PARAMS = "fun_info.params.params@"
+    u.add_fn(XF, "visit_expr_fun_literal", impl=VIS, wrap_impl=W, rules=COMMON + ["R4"],
+             contract=Contract(
+                 requires=wf, ensures=post_same,
+                 loops={1: dict(invariant=[("parameter_names_so_far", "{I} <= %s.len(), nsv(block_bindings) == pnames_upto(%s, {I} as int)" % (PARAMS, PARAMS)), ("nothing_changed_yet", "*self == *old(self)")],
+                                body_prelude="proof { lemma_pnames_upto_step(%s, {I} as int); }" % PARAMS,
+                                pre="proof { assert(pnames_upto(%s, 0) =~= ISet::<SymbolName>::empty()); }" % PARAMS,
+                                decreases="%s.len() - {I}" % PARAMS)},
+                 hints=[dict(anchor="self.visit_block(&fun_info.body)", where="before", name="the_body_sees_the_enclosing_names_and_the_parameters",
+                             text="proof { %s assert(same_scopes(%s, base)); lemma_visible_same(%s, base);\n    assert(visible(%s) =~= visible(%s).union(pnames_upto(%s, %s.len() as int))); }" % (split_top(), OLD, OLD, CUR, OLD, PARAMS, PARAMS))],
+                 props=props))
+
+    u.add_fn(XF, "visit_expr_let", impl=VIS, wrap_impl=W, rules=COMMON,
+             contract=Contract(
+                 requires=wf,
+                 ensures=post_grown + [("the_destination_names_are_bound_in_the_innermost_scope", "dest_names(*dest).subset_of(nsv(%s[%s.len() - 1]))" % (FIN, FIN))],
+                 hints=[dict(anchor="self.visit_expr(expr)", where="before", name="the_right_hand_side_is_analysed_before_the_destination_is_bound",
+                             text="proof { assert(%s == %s); }" % (CUR, OLD))],
+                 props=props))
+
+    u.add_fn(XF, "visit_expr_for_in", impl=VIS, wrap_impl=W, rules=COMMON + ["R4"],
+             contract=Contract(
+                 requires=wf, ensures=post_grown,
+                 loops={1: dict(invariant=[("names_so_far", "{I} <= symbols@.len(), nsv(block_bindings) == names_upto(symbols@, {I} as int)"), ("visitor_untouched", "%s == lb1" % CUR), inv_frame],
+                                body_prelude="proof { lemma_names_upto_step(symbols@, {I} as int); }",
+                                pre="proof { assert(names_upto(symbols@, 0) =~= ISet::<SymbolName>::empty()); }",
+                                decreases="symbols@.len() - {I}")},
+                 hints=[dict(anchor="self.visit_expr(expr)", where="before", name="the_iterated_expression_is_analysed_without_the_loop_variable",
+                             text="proof { assert(%s == %s); }" % (CUR, OLD)),
+                        dict(anchor="self.visit_expr(expr)", where="after_stmt", text="let ghost lb1 = %s;" % CUR),
+                        dict(anchor="self.visit_block(body)", where="before", name="the_loop_body_sees_the_enclosing_names_and_the_loop_variables",
+                             text="proof { %s assert(same_scopes(lb1, base)); lemma_visible_same(lb1, base);\n    assert(visible(%s) =~= visible(lb1).union(dest_names(*dest))); }" % (split_top(), CUR))],
+                 props=props))
+
+    u.add_fn(XF, "visit_expr_match", impl=VIS, wrap_impl=W,
+             rules=COMMON + [rw.simple("R4t", r"for \(pattern, block\) in cases \{", "let mut __i1: usize = 0; while __i1 < cases.len() { let pattern = &cases[__i1].0; let block = &cases[__i1].1; __i1 += 1;")],
+             contract=Contract(
+                 requires=wf, ensures=post_grown,
+                 loops={1: dict(invariant=[("every_case_starts_from_the_scopes_after_the_scrutinee", "same_scopes(lb1, %s), lb1.len() >= 1, grown_at_top(%s, lb1)" % (CUR, OLD)), inv_frame, ("index", "{I} <= cases@.len()")],
+                                decreases="cases@.len() - {I}")},
+                 hints=[dict(anchor="self.visit_expr(scrutinee)", where="before", name="the_scrutinee_is_analysed_without_any_payload",
+                             text="proof { assert(%s == %s); }" % (CUR, OLD)),
+                        dict(anchor="self.visit_expr(scrutinee)", where="after_stmt", text="let ghost lb1 = %s;" % CUR),
+                        dict(anchor="self.visit_block(block)", where="before", name="a_case_body_sees_the_enclosing_names_and_its_own_payload_only",
+                             text="proof { %s assert(same_scopes(lb1, base)); lemma_visible_same(lb1, base);\n    assert(visible(%s) =~= visible(lb1).union(opt_dest_names(pattern.payload))); }" % (split_top(), CUR))],
+                 props=props))
+
+    u.add_fn(XF, "locals_outside_exprs",
+             rules=COMMON + T + [rw.simple("R2", r"vec!\[NameSet::default\(\)\]", "vvec1(NameSet::default())"), rw.simple("R2", r"vec!\[\]", "Vec::new()"), "R4"],
+             contract=Contract(
+                 ensures=[("returns_the_collected_free_variables", "true")],
+                 loops={1: dict(invariant=[("some_scope", "visitor.local_bindings@.len() >= 1, {I} <= exprs@.len()")], decreases="exprs@.len() - {I}")},
+                 props=props))
+    # --- every construct of the language that binds names has an override -------------------------------------------
+    import hashlib
+    import re
+    from gen import Tag
+    ast_text = u.source(AST).text
+    m_enum = re.search(r"pub\(crate\)\s+enum\s+Expression_\s*\{", ast_text)
+    if not m_enum:
+        raise common.ExtractError("enum Expression_ not found") if hasattr(common, "ExtractError") else RuntimeError("enum Expression_ not found")
+    depth, k = 1, m_enum.end()
+    while depth and k < len(ast_text):
+        depth += {"{": 1, "}": -1}.get(ast_text[k], 0)
+        k += 1
+    body = re.sub(r"//[^\n]*", "", ast_text[m_enum.end():k - 1])
+    variants = re.findall(r"^\s{4}([A-Z]\w*)\s*(\(([^;]*?)\))?\s*,\s*$", body, flags=re.M | re.S)
+    OVERRIDE = {"Match": "visit_expr_match", "ForIn": "visit_expr_for_in", "Try": "visit_expr_try", "Let": "visit_expr_let", "FunLiteral": "visit_expr_fun_literal"}
+    xf_src = u.source(XF)
+    missing = []
+    for (vname, _, fields) in variants:
+        binds = bool(re.search(r"\b(LetDestination|Pattern|FunInfo)\b", fields or "")) or vname in OVERRIDE
+        if not binds:
+            continue
+        if vname not in OVERRIDE:
+            missing.append(vname + " (no override known for it)")
+            continue
+        try:
+            xf_src.find_fn(OVERRIDE[vname], impl=VIS)
+        except Exception:
+            missing.append("%s (%s is not overridden)" % (vname, OVERRIDE[vname]))
+    if len(variants) < 20:
+        missing.append("only %d variants of Expression_ recognised" % len(variants))
+    fname = "binding_constructs_are_overridden"
+    u.fn_props[fname] = props
+    u.skeletons[fname] = hashlib.sha256((",".join(v[0] for v in variants) + "|" + ";".join(missing)).encode()).hexdigest()[:12]
+    u.items.append({"name": "every Expression_ variant that carries a LetDestination, a Pattern, a FunInfo or a catch variable has its visit_* override in FreeVarsVisitor",
+                    "generated_as": fname, "kind": "slice", "where": AST, "sha256_16": "-", "skeleton": u.skeletons[fname]})
+    oid = "freevars.%s.post[no_binding_construct_is_left_to_the_default_traversal]" % fname
+    u.clauses.append((oid, props, "n == 0"))
+    tg = Tag("repo", fn=fname, repo_file=AST, repo_line=ast_text.count("\n", 0, m_enum.start()) + 1, props=props)
+    u.emit("pub fn %s() -> (n: u64)" % fname, tg)
+    u.raw("    ensures", fn=fname, props=props)
+    u.emit("        n == 0,", Tag("contract", fn=fname, clause=oid, props=props))
+    u.emit("{ %d }  // %d variants; without an override: %s" % (len(missing), len(variants), "; ".join(missing) or "none"), tg)
     u.add_canary_proof()
     u.raw(common.FOOTER)
     return u
